@@ -22,6 +22,9 @@ CHECKS = {
     "C05": ("2 (C05)", "One send_msg step from every ConnectionState x role x pending-TestRequest flag with symbolic counter and message "
                   "kind; consecutive sends; sends caused by inbound traffic (C04 step harness): wire number == journal key == stored "
                   "counter - 1, refused sends leave no trace."),
+    "C11": ("2 (C11)", "One step of the real _process_message from every ConnectionState x role with a message of every kind whose header "
+                  "defects are solver variables (presence of 49/56/34, CompIDs, BeginString; MsgSeqNum below/at/above), then one further "
+                  "symbolic input and a send attempt after a disconnect."),
     "C08": ("2 (C08)", "Operation sequences on the real Journaler (FakeSQLite) with the crash slot as a solver variable over every point "
                   "before/after every SQL statement and commit, plus normal close; after the crash a fresh Journaler must show a state "
                   "at an operation boundary. Counterexamples and sampled witnesses are re-run on the real sqlite3 with os._exit in a child."),
